@@ -310,7 +310,7 @@ pub fn threads() -> usize {
 }
 
 /// Seconds a single case may run before the watchdog declares non-termination.
-const HANG_SECS: u64 = 30;
+const HANG_SECS: u64 = 120;
 
 pub fn run_space(sp: &Space, want_digest: bool) -> SpaceReport {
     let t0 = Instant::now();
